@@ -76,7 +76,7 @@ def main():
     if pat:
         ms = [m for m in ms if any(p in m["name"] for p in pat)]
     bad = 0
-    with concurrent.futures.ThreadPoolExecutor(max_workers=8) as ex:
+    with concurrent.futures.ThreadPoolExecutor(max_workers=int(os.environ.get("JOBS","12"))) as ex:
         for name, status, detail in ex.map(lambda m: one(m, with_tests), ms):
             print("%-12s %-40s %s" % (status, name, detail[:300]))
             if status != "ok":
